@@ -51,6 +51,9 @@ CHECKS = {
  "C16": ("exploration", "bounded-exhaustive enumeration of source trees x (source kind, destination kind) pairs for CopyFileSystem, and of every single-point mutation x argument order for CompareFS",
          "Copy: every tree of the grammar (<= 4 nodes, sizes around 2048, excluded names at the root and nested, files around the 32 KiB compare chunk) from {MapFS, os directory, fat32, ext4, iso9660, squashfs} into {fat12, fat16, fat32, ext4}; the destination is walked independently and compared with the source's own view minus the excluded names, CompareFS on the faithful copy must be nil in both orders, and a 64 MiB+1234-byte file from a synthetic sparse source (last bytes delivered together with io.EOF) goes through the streaming branch. Compare: for every tree, every single-point mutation (per file: flip first / last / byte 32767 / byte 32768, drop the last byte, append a byte, remove, turn into a directory; per directory: add a file, add a directory, remove, turn into a file) must make CompareFS return an error in both argument orders; identical trees must compare equal.",
          "symlinks and special files are outside the statement", "DESIGN.md §3 C16"),
+ "C19": ("exploration", "bounded-exhaustive enumeration of attribute values and short attribute/content-write histories, observed through Stat/Sys/ReadLink/FAT getters after re-opening the image, with a frame condition on everything not touched",
+         "ext4: every permission/special bit alone and combined, uid/gid over the 16/32-bit boundaries and -1, times from 1901 to 2446 with nanoseconds, on a file, a directory and through a symlink; symlink targets 1..4095 bytes around the inline limit; all ordered pairs (thorough: triples) of attribute calls and content writes; debugfs stat as second opinion. FAT12/16/32: times across 1980..2107 with odd seconds, every subset of Hidden/System/ReadOnly/Archive, interleaved with writes and calls on other files. squashfs and Rock Ridge ISO: workspace modes x owners x mtimes x link-target lengths at Finalize. Every attribute set must read back (to the format's resolution), every other attribute of every entry must be unchanged, kinds never change.",
+         "two Rock Ridge long-symlink panics are listed as known findings", "DESIGN.md §3 C19"),
  "C02": ("exploration", "bounded-exhaustive enumeration of table inputs executed on the real Write/Read + independent on-disk parser",
          "Every table of a spelled-out finite cross product (entries, indices, spellings, geometries, names, attributes, types, disk sizes, sector sizes, PMBR, prior content) is written by the real code and compared via gpt.Read/mbr.Read, partition.Read, Disk.GetPartition and an independent UEFI-spec parser; exhaustive over that domain, says nothing outside it.",
          "memdev in-memory device; gptck (independent parser written from the UEFI spec) defines on-disk validity", "DESIGN.md §3 C02"),
